@@ -52,14 +52,15 @@ def rand_spectrum_tensor(rng, dims, decay):
     nrng = np.random.RandomState(rng.getrandbits(31))
     x = nrng.standard_normal(dims)
     if decay:
-        # sum of a few rank-1 terms with geometric weights
+        # sum of a few rank-1 terms with geometric weights (decay 2: steep, singular values down to 1e-9 and below relative to the largest)
+        q = 0.3 if decay == 1 else [0.01, 1e-5, 1e-9][nrng.randint(3)]     # small mode sizes: the k-th singular value is ~ q^k
         x = np.zeros(dims)
         for k in range(6):
             term = 1.0
             for i, d in enumerate(dims):
                 v = nrng.standard_normal(d).reshape([d if j == i else 1 for j in range(len(dims))])
                 term = term * v
-            x = x + (0.3 ** k) * term
+            x = x + (q ** k) * term
     return x
 
 
@@ -78,7 +79,7 @@ def side_case(seed):
     rows = [rng.randint(1, 3) for _ in range(order)]
     op = rng.random() < 0.4
     cols = [rng.randint(1, 2) if op else 1 for _ in range(order)]
-    decay = rng.random() < 0.5
+    decay = rng.choice([0, 0, 1, 2])
     x = rand_spectrum_tensor(rng, rows + cols, decay)
     if rng.random() < 0.3:
         x = x + 1j * rand_spectrum_tensor(rng, rows + cols, decay)
@@ -88,8 +89,11 @@ def side_case(seed):
     try:
         if which == 'exact':
             t = TT(x)
+            if rng.random() < 0.3:
+                t = t.ortho()
+                desc['then'] = 'ortho()'
             err = float(np.linalg.norm(dense(t.cores) - x))
-            if err > 1e-9 * max(1, nrm):
+            if err > 1e-12 * nrm:
                 return 'threshold 0 / unbounded rank is not exact: err %.2e' % err, desc
             return None, desc
         if which == 'init-maxrank':
@@ -98,7 +102,7 @@ def side_case(seed):
             t = TT(x, max_rank=r)
             caps = [r] * (order - 1)
         elif which == 'init-threshold':
-            thr = rng.choice([1e-1, 1e-2, 0.3, 1e-4])
+            thr = rng.choice([1e-1, 1e-2, 0.3, 1e-4, 1e-9])
             desc['threshold'] = thr
             t = TT(x, threshold=thr)
             full = TT(x)
